@@ -66,12 +66,13 @@ class ParseInterp(Interp):
             return Native("for_property", for_property)
         if o.name == "tzp" and name == "cache_timezone_component":
             return Native("cache", lambda i, a, k: self.log.append(("cache", a[0])))
-        if o.name == "component_factory" and name == "get":
-            def get(i, a, k):
-                reg = self.model.component_registry()
-                ent = reg.get(self._key(a[0]))
-                return ClassVal(ent[0]) if ent else (a[1] if len(a) > 1 else None)
-            return Native("component_factory.get", get)
+        if o.name == "component_factory":
+            # the factory as written: an instance built by interpreting ComponentFactory.__init__
+            cf = self.__dict__.get("_cf_instance")
+            if cf is None:
+                cf = self.instantiate(self.model.cls("cal.ComponentFactory"), [], {})
+                self.__dict__["_cf_instance"] = cf
+            return self.getattr(cf, name)
         return super()._native_obj_attr(o, name)
 
     def getattr(self, o, name):
